@@ -274,6 +274,102 @@ CONTRACTS.append(serials)
 LEMMAS.extend([L_nat_nonneg, L_nat_mono])
 
 
+# ------------------------------------------------------------------ write_gro: the atom lines
+FG = 'vermouth/gmx/gro.py'
+GroEv = TTuple(TInt, TInt, TStr, TStr, TBool, names=['serial', 'resid', 'resname', 'atomname', 'with_velocity'])
+
+
+def setup_gro(cx):
+    eng = cx.eng
+    from pyvc.builtins import list_append
+    mols = cx.val('molecules', TSeq(MolT))
+    cx.spec_env['mols'] = mols
+    nodes_of = cx.uf('nodes_of', [MolT], TSeq(NodeT))               # iteration over molecule.nodes
+    attr_s = cx.uf('attr_s', [MolT, NodeT, TStr], TStr)
+    attr_i = cx.uf('attr_i', [MolT, NodeT, TStr], TInt)
+    m_ = z3.Const('m', MolT.sort())
+    cx.assume(z3.ForAll([m_], TSeq(NodeT).len(nodes_of(m_)) >= 0))
+    EV = cx.heap('EV', Box(TSeq(GroEv)))
+
+    def node_view(e, m):
+        def item(e2, n):
+            me, ne = to_z3(m, MolT), to_z3(n, NodeT)
+
+            def get(e3, k):
+                if k in ('atomname', 'resname'):
+                    return SV(TStr, attr_s(me, ne, z3.StringVal(k)))
+                if k == 'resid':
+                    return SV(TInt, attr_i(me, ne, z3.StringVal(k)))
+                if k in ('position', 'velocity'):
+                    return (e3.fresh_val(TReal, 'x'), e3.fresh_val(TReal, 'y'), e3.fresh_val(TReal, 'z'))
+                raise EngineError('node[%r]' % (k,))
+            return Obj('atomdict', __getitem__=Builtin(get, 'node[]'))
+        nv = Obj('NodeView', __getitem__=Builtin(item, 'molecule.nodes[]'))
+        nv.__dict__['iter'] = SV(TSeq(NodeT), nodes_of(to_z3(m, MolT)))
+        return nv
+    eng.attr_hooks[('MolT', 'nodes')] = node_view
+
+    def fmt(e, template, *vals):
+        if len(vals) == 7:
+            o = Obj('groline', serial=vals[3], resid=vals[0], resname=vals[1], atomname=vals[2], vel=False)
+
+            def add(e2, other):
+                if other == '\n':
+                    return o
+                if isinstance(other, Obj) and other.cls == 'velocities':
+                    o.attrs['vel'] = True
+                    return o
+                raise EngineError('line + %r' % (other,))
+            o.attrs['__add__'] = Builtin(add, 'line +')
+            return o
+        if len(vals) == 3:
+            return Obj('velocities')
+        raise EngineError('formatter.format with %d values' % len(vals))
+    formatter = Obj('formatter', format=Builtin(fmt, 'formatter.format'))
+    out = Obj('out', write=Builtin(lambda e, o: list_append(e, EV, (o.attrs['serial'], o.attrs['resid'], o.attrs['resname'],
+                                                                     o.attrs['atomname'], o.attrs['vel'])), 'out.write'))
+    return dict(system=Obj('System', molecules=mols), formatter=formatter, out=out, has_vel=cx.val('has_vel', TBool),
+                format_string='{:5dt}{:<5st}{:>5st}{:5dt}...', vel_format_string='{:8.4ft}' * 3)
+
+
+SPEC_GRO = {
+    'nat': "lambda m: len(nodes_of(mols[m]))",
+    'nd': "lambda m, q: nodes_of(mols[m])[q]",
+    'is_line': "lambda ev, m, q: ev.serial == NAT(mols, m) + q + 1 and ev.atomname == attr_s(mols[m], nd(m, q), 'atomname') and "
+               "ev.resname == attr_s(mols[m], nd(m, q), 'resname') and ev.resid == attr_i(mols[m], nd(m, q), 'resid') and "
+               "ev.with_velocity == has_vel",
+    'block_ok': "lambda m: NAT(mols, m) + nat(m) <= len(EV) and "
+                "forall(lambda p: implies(NAT(mols, m) <= p and p < NAT(mols, m) + nat(m), is_line(EV[p], m, p - NAT(mols, m))))",
+}
+gro_lines = FunctionContract(
+    FG, 'write_gro', 'C16', short='write_gro[atom lines]', setup=setup_gro, spec_defs=SPEC_GRO, spec_recs=RECS_SER,
+    spec_env=dict(MolT=MolT, NodeT=NodeT), lemmas=[L_nat_nonneg, L_nat_mono],
+    region=dict(within=["with open(str(file_name), 'w') as out:"], start="atomid = 1", end="out.write(' '.join("),
+    requires=["len(old(EV)) == 0"],
+    ensures=[
+        # one line per atom, molecule after molecule in the molecule's own atom order, numbered consecutively from 1, each
+        # with its own residue number, residue name and atom name (and velocities for all atoms or for none)
+        "len(EV) == NAT(mols, len(mols))",
+        "forall(lambda m: implies(0 <= m and m < len(mols), block_ok(m)))",
+    ],
+    modifies=['EV'],
+    ghost_at={'entry': "use_lemma('L_nat_nonneg', mols, ANY)\nuse_lemma('L_nat_mono', mols, ANY, ANY)"},
+    loops={
+        'L1': LoopSpec(inv=["atomid == NAT(mols, _i) + 1 and len(EV) == NAT(mols, _i)", "forall(lambda m: implies(0 <= m and m < _i, block_ok(m)))"],
+                       modifies=['EV'], locals=dict(g_EV=TSeq(GroEv)), ghost_pre="g_EV = list(EV)",
+                       ghost_end="prove(forall(lambda m: implies(0 <= m and m < _i, block_ok(m))), 'earlier-molecules-untouched')\n"
+                                 "prove(block_ok(_i), 'this-molecule')"),
+        'L1.1': LoopSpec(inv=["atomid == NAT(mols, _iL1) + _i + 1 and len(EV) == NAT(mols, _iL1) + _i",
+                              "forall(lambda p: implies(0 <= p and p < NAT(mols, _iL1), EV[p] == g_EV[p]))",
+                              "forall(lambda p: implies(NAT(mols, _iL1) <= p and p < NAT(mols, _iL1) + _i, is_line(EV[p], _iL1, p - NAT(mols, _iL1))))"],
+                         modifies=['EV']),
+    },
+    canary=[("atomid += 1\n                out.write(line + '\\n')", "out.write(line + '\\n')"),
+            ("line = formatter.format(format_string, resid, resname, atomname,", "line = formatter.format(format_string, resid, atomname, resname,")],
+)
+CONTRACTS.append(gro_lines)
+
+
 def extra_obligations(tier):
     obs = []
 
